@@ -50,6 +50,19 @@ PROPS = {
         "assumptions": ["edge semantics from the property statement: created <= T < deleted, T=0 means now; identical re-link is a no-op; "
                         "changed weight/props supersedes; hard unlink erases all versions of the triple; vacuum removes deleted <= cutoff"],
     },
+    "C11": {
+        "level": "exploration", "quick": 2000, "thorough": 150000, "batch": 25,
+        "rule": ("seeded directed multigraphs over 6 nodes x 3 relations (cycles, self-loops, parallel relations, inverse links, soft- and "
+                 "hard-deleted versions) built through link/unlink under the simulated clock, optionally followed by snapshot/compaction/"
+                 "restart, then 5-30 queries: FindPath (relation subset, depth 0..4, as-of time at recorded instants +-1ns) checked for "
+                 "validity of every hop, minimal length and found-when-exists against a reference BFS; VExtractSubgraph node set == reference "
+                 "reachable set and reported edges active; graph-scoped VSearch result inside (and, in the exact regime, equal to) the reachable "
+                 "live vectors for every direction; VTraverse leaves == reference. Non-trivial: some query had a path / a non-singleton reachable "
+                 "set; distinct = hash of the whole generated program."),
+        "real_vs_stub": REAL,
+        "assumptions": ["mostly input-driven; the simulator contributes time-travel timestamps, equal-timestamp cases and the restart",
+                        "a per-process timeout (proc_timeout) is the watchdog for non-terminating traversals"],
+    },
 }
 
 
@@ -59,6 +72,12 @@ NOT_APPLICABLE["C20"] = ("pure functions of their input (text analysis, chunking
                          "no schedule, fault or interleaving for a simulator to decide; property-based testing territory, see DESIGN.md section 7")
 
 MANIFEST_TEXT = {
+    "C11": {
+        "text": "Seeded exploration over small directed multigraphs built under the simulated clock: path finding, subgraph extraction, graph-scoped search and traversal are compared with reference BFS computed on the edge model at the queried time.",
+        "design_ref": "DESIGN.md section 6 C11",
+        "note": "Trusts the reference BFS and the edge model (validated separately by C10). Paths longer than max-depth that the engine may return are not judged (the statement only requires found-when-exists, validity and minimality).",
+        "technique": "deterministic simulation: simulated-clock graph histories + seeded queries, reference BFS oracle",
+    },
     "C10": {
         "text": "Seeded exploration of link/unlink/vacuum histories under a simulated clock (equal timestamps and +-1ns boundaries are generated on purpose): every edge view, forward and reverse, current and as-of every recorded instant, must equal a version-list reference model after each operation and after snapshot, compaction and restart.",
         "design_ref": "DESIGN.md section 6 C10",
